@@ -3,7 +3,7 @@ Props/C06 — property theorems for C06 (memory reads and writes are exact, comp
 subsystem).  Helper lemmas are in Proofs/C06*.  Every theorem is about Model/C06 (+ the environment of
 Spec/C06), whose chunk limits, channels, struct formats and lock discipline are regenerated from /repo (Gen/C06).
 -/
-import CfVerif.Proofs.C06
+import CfVerif.Proofs.C06Safety
 namespace CfVerif.C06
 open CfVerif
 
@@ -24,6 +24,77 @@ theorem quiescent_lock_free (evs : List Ev) : (run Variant.fixed St.init evs).1.
 theorem never_blocks (evs : List Ev) (e : Ev) :
     (step Variant.fixed (run Variant.fixed St.init evs).1 e).res ≠ .hang :=
   (step_lock_free _ e (run_lock_free evs St.init rfl)).2
+
+/-! ## exactly_one_notification, writes_in_order (bookkeeping), quiescent_clean (records)
+
+`Ev.WF`: the request addresses a valid memory id (`< 256`) and a range inside the 32-bit address space (outside it
+`struct.pack` raises: modelled, see `oob_write_raises` below, but not covered by the property).
+The packets of a history are ARBITRARY (any channel, any bytes, any number, any order): every pattern of duplicated,
+delayed, reordered, stale, error-status, forged and malformed replies is a special case.  `disconnect` may occur
+anywhere (link drop after every k-th reply).  Tags identify requests (ghost; the `memory` object in the harness). -/
+
+/-- **Writes, at most once / in order / nothing foreign.**  For every memory: the notified write requests (success
+or failure, in notification order) followed by the requests still queued form a subsequence of the requests issued
+on that memory, in issue order.  Hence (with distinct tags) no request is notified twice, a notified request is no
+longer recorded, notifications and queue follow the issue order, and nothing is notified that was not requested. -/
+theorem writes_once_in_order (evs : List Ev) (hwf : ∀ e ∈ evs, e.WF) (id : Nat) :
+    (notifW id (run Variant.fixed St.init evs).2 ++ (run Variant.fixed St.init evs).1.queueTags id).Sublist
+      (accW id evs) := by
+  simpa [St.queueTags, St.queue_def, St.init, dget?] using run_writes_sublist St.init_ok hwf id
+
+theorem writes_at_most_once (evs : List Ev) (hwf : ∀ e ∈ evs, e.WF) (hnd : (evs.filterMap Ev.tag?).Nodup) (id : Nat) :
+    (notifW id (run Variant.fixed St.init evs).2 ++ (run Variant.fixed St.init evs).1.queueTags id).Nodup := by
+  exact ((writes_once_in_order evs hwf id).trans (accW_sublist_tags id evs)).nodup hnd
+
+/-- **Writes, never lost.**  A write request, once issued, is at any later time either notified, or still queued, or
+a later `write(..., flush_queue=True)` on the same memory has explicitly superseded it. -/
+theorem write_notified_queued_or_superseded (pre post : List Ev) (tag id addr : Nat) (data : List UInt8) (f p : Bool)
+    (hwf : ∀ e ∈ pre ++ Ev.write tag id addr data f p :: post, e.WF) :
+    tag ∈ notifW id (run Variant.fixed St.init (pre ++ Ev.write tag id addr data f p :: post)).2 ∨
+    tag ∈ (run Variant.fixed St.init (pre ++ Ev.write tag id addr data f p :: post)).1.queueTags id ∨
+    hasFlush id post := by
+  have hpre : ∀ e ∈ pre, e.WF := fun e he => hwf e (by simp [he])
+  have hw : (Ev.write tag id addr data f p).WF := hwf _ (by simp)
+  have hpost : ∀ e ∈ post, e.WF := fun e he => hwf e (by simp [he])
+  have hs1 := run_ok St.init_ok hpre
+  rw [run_append, run_cons]
+  obtain ⟨h1, h2, _⟩ := step_effect hs1 hw
+  have hin : tag ∈ notifW id (step Variant.fixed (run Variant.fixed St.init pre).1 (Ev.write tag id addr data f p)).outs ++
+      (step Variant.fixed (run Variant.fixed St.init pre).1 (Ev.write tag id addr data f p)).st.queueTags id := by
+    rw [h2 id]; simp [Ev.queueAfter]
+  simp only [notifW_append, List.mem_append]
+  rcases List.mem_append.1 hin with h | h
+  · left; right; left; exact h
+  · rcases run_writes_lost h1 hpost id tag h with h | h | h
+    · left; right; right; exact h
+    · right; left; exact h
+    · right; right; exact h
+
+/-- **Reads, exactly once.**  For every memory: the notified read requests (success or failure) followed by the one
+still recorded are EXACTLY the read requests that `Memory.read` accepted (returned True), in order: none lost, none
+twice, none invented.  (`Memory.read` returns False - and does nothing - while a read of that memory is recorded.) -/
+theorem reads_exactly_once (evs : List Ev) (hwf : ∀ e ∈ evs, e.WF) (id : Nat) :
+    notifR id (run Variant.fixed St.init evs).2 ++ (run Variant.fixed St.init evs).1.readTags id =
+      accR Variant.fixed St.init evs id := by
+  simpa [St.readTags, St.init, dget?] using run_reads St.init_ok hwf id
+
+/-- **Link drop at any point.**  After a disconnect no record remains (`quiescent_clean`): every read accepted so
+far has been notified exactly once, and every write issued so far has been notified at most once and, unless
+explicitly superseded, exactly once (combine with `write_notified_queued_or_superseded`: the queue is empty). -/
+theorem disconnect_leaves_no_record (evs : List Ev) (hwf : ∀ e ∈ evs, e.WF) :
+    (run Variant.fixed St.init (evs ++ [.disconnect])).1 = St.init ∧
+    (∀ id, notifR id (run Variant.fixed St.init (evs ++ [.disconnect])).2 = accR Variant.fixed St.init evs id) := by
+  have hs := run_ok St.init_ok hwf
+  obtain ⟨h1, _, h3, _⟩ := disconnected_effect hs (r := disconnected (run Variant.fixed St.init evs).1) rfl
+  rw [run_append]
+  simp only [run, step, List.append_nil]
+  refine ⟨h1, fun id => ?_⟩
+  rw [notifR_append, h3, reads_exactly_once evs hwf id]
+
+/-- **No exception, no hang.**  On well-formed requests no call into Memory blocks, and a received packet can only
+raise before anything was changed (a reply too short to parse): the subsystem state stays well-formed. -/
+theorem state_stays_wellformed (evs : List Ev) (hwf : ∀ e ∈ evs, e.WF) : (run Variant.fixed St.init evs).1.Ok :=
+  run_ok St.init_ok hwf
 
 /-! ## D9: the code before the repair -/
 
